@@ -109,7 +109,7 @@ structure WSpec where
   awaits  : Nat := 0        -- gated worker: how many *further* suspension points it has after its first one
 deriving DecidableEq, Repr, Inhabited
 
-/-- a synchronous pool call made from inside user code the pool runs (worker start, callback, iterator pull) -/
+/-- a synchronous pool call made from inside user code the pool runs (worker start, between two awaits of the worker, callback, iterator pull) -/
 inductive HookOp
   | cancel (ids : List Int)
   | cancelGroup (g : String)
@@ -125,6 +125,7 @@ structure Hooks where
   endCb    : List HookOp := []      -- inside the end callback
   cancelCb : List HookOp := []      -- inside the cancel callback
   pull     : List HookOp := []      -- inside the argument iterator, at every pull
+  next     : List HookOp := []      -- in the worker, each time it resumes from an await and goes on to a later one
 deriving DecidableEq, Repr, Inhabited
 
 /-- what the harness-owned user code of a request does -/
